@@ -79,6 +79,7 @@ class Exec:
         self.asserts = []            # path condition
         self.ufs = set()
         self.trace = []
+        self.width = {}              # local -> bit width of integer locals narrower than 64
 
     def operand(self, s):
         s = s.strip()
@@ -90,6 +91,8 @@ class Exec:
             return v  # reference parameters are modelled by their pointee
         m = re.match(r"^(?:copy|move) (_\d+)$", s)
         if m:
+            if m.group(1) in self.width:
+                self.last_width = self.width[m.group(1)]
             return self.env[m.group(1)]
         m = re.match(r"^(?:copy|move) \((_\d+)\.(\d+): \w+\)$", s)
         if m:
@@ -139,6 +142,18 @@ class Exec:
         if m:
             self.env[lhs] = "((_ to_fp 11 53) RNE %s)" % self.operand(m.group(1))  # signed bit-vector
             return
+        m = re.match(r"^(.*) as (i8|i16|i32|i64|isize|u8|u16|u32|u64|usize) \(IntToInt\)$", rhs)
+        if m:
+            bits = {"i8": 8, "i16": 16, "i32": 32, "i64": 64, "isize": 64, "u8": 8, "u16": 16, "u32": 32, "u64": 64, "usize": 64}[m.group(2)]
+            v = self.operand(m.group(1))
+            w = self.width.get(m.group(1).split()[-1], 64)
+            if bits <= w:
+                v = "((_ extract %d 0) %s)" % (bits - 1, v)
+            else:
+                v = "((_ sign_extend %d) %s)" % (bits - w, v)
+            self.env[lhs] = v
+            self.width[lhs] = bits
+            return
         m = re.match(r"^&(_\d+)$", rhs)
         if m:
             self.env[lhs] = ("ref", m.group(1))
@@ -181,6 +196,12 @@ class Exec:
                     v = self.env[v[1]]
                 vals.append(v)
             self.env[lhs] = "(fp.%s RNE %s %s)" % (m.group(1).lower(), vals[0], vals[1])
+            return
+        m = re.match(r"^<f64 as From<(i8|i16|i32|u8|u16|u32)>>::from$", callee)
+        if m:
+            v = self.operand(a[0])
+            signed = m.group(1).startswith("i")
+            self.env[lhs] = "((_ to_fp 11 53) RNE %s)" % v if signed else "((_ to_fp_unsigned 11 53) RNE %s)" % v
             return
         if re.match(r"^std::ops::RangeInclusive::<f64>::contains::<f64>$", callee):
             rng, x = self.operand(a[0]), self.operand(a[1])
